@@ -74,7 +74,11 @@ HOSTILE = ['inbox', 'Inbox', 'INBOX/x', 'a', 'a/', 'a//b', '*', '%', 'a"b',
            'cur', 'new', 'tmp', 'a/cur', 'cur/x', 'dovecot-uidlist',
            'subscriptions', 'a/dovecot-uidlist',
            # str.upper() maps a dotless i to I: not a spelling of INBOX
-           '\u0131nbox', '\u0131NBOX']
+           '\u0131nbox', '\u0131NBOX',
+           # fullwidth letters: compatibility normalisation would give INBOX
+           '\uff29\uff2e\uff22\uff2f\uff38',
+           # the on-disk separator of the ++ layout inside a name
+           'v1.0', 'a.b', '.x']
 
 
 # names a maildir directory consists of (fs layout: cannot be mailboxes)
